@@ -128,26 +128,35 @@ def decValueMsg {α} (dec : Json → Dec α) (dflt : α) (j : Json) : Dec (Optio
     noUnknown fs
     pure (some r)
 
-def decFeeInfo (π : OneofOrder) (j : Json) : Dec FeeInfo := do
-  let fs ← asObject j
-  let (r, fs) := takeField fs "recipient" "recipient"
-  let recipient ← match r with | some v => decString v | none => pure ""
-  let (b, fs) := takeField fs "basis_points" "basisPoints"
-  let (a, fs) := takeField fs "amount" "amount"
-  -- both members are decoded (an error in either aborts), the one visited last stays
-  let bv ← match b with | some v => (decValueMsg decUint32 0 v).map some | none => pure none
-  let av ← match a with | some v => (decValueMsg decString "" v).map some | none => pure none
-  noUnknown fs
+/-- A oneof member that may be absent: `none` = key absent, `some none` = present with a nil message. -/
+def decOptMember {α} (dec : Json → Dec (Option α)) (o : Option Json) : Dec (Option (Option α)) :=
+  match o with
+  | some v => (dec v).map some
+  | none => .ok none
+
+/-- Which member of the oneof stays: when both are present, the one jsonpb visits last (`π`). -/
+def pickFeeType (π : OneofOrder) (bv : Option (Option Nat)) (av : Option (Option String)) : FeeType :=
   let asBps : Option Nat → FeeType := fun o => match o with | some n => .bps n | none => .unset
   let asAmt : Option String → FeeType := fun o => match o with | some s => .amount s | none => .unset
-  let ft : FeeType := match bv, av with
-    | none, none => .unset
-    | some x, none => asBps x
-    | none, some y => asAmt y
-    | some x, some y => match π with
-      | .bpsLast => asBps x
-      | .amountLast => asAmt y
-  pure { recipient := recipient, feeType := ft }
+  match bv, av with
+  | none, none => .unset
+  | some x, none => asBps x
+  | none, some y => asAmt y
+  | some x, some y => match π with
+    | .bpsLast => asBps x
+    | .amountLast => asAmt y
+
+/-- Both members are decoded (an error in either aborts); the one visited last stays. -/
+def decFeeInfo (π : OneofOrder) (j : Json) : Dec FeeInfo :=
+  asObject j >>= fun fs =>
+  let r := takeField fs "recipient" "recipient"
+  let b := takeField r.2 "basis_points" "basisPoints"
+  let a := takeField b.2 "amount" "amount"
+  (match r.1 with | some v => decString v | none => pure "") >>= fun recipient =>
+  decOptMember (decValueMsg decUint32 0) b.1 >>= fun bv =>
+  decOptMember (decValueMsg decString "") a.1 >>= fun av =>
+  noUnknown a.2 >>= fun _ =>
+  pure { recipient := recipient, feeType := pickFeeType π bv av }
 
 /-- Repeated pointer-to-message field. `null` elements stay nil pointers in Go; the caller decides. -/
 def decRepeated {α} (dec : Json → Dec α) (j : Json) : Dec (List (Option α)) :=
@@ -273,23 +282,33 @@ def decPayload (π : OneofOrder) (j : Json) : Res RawPayload := do
   (noUnknown fs).toRes
   pure { forwarding := fwd, preActions := acts }
 
-/-- `PayloadWrapper` + `UnpackInterfaces` (attribute family must match the field's interface). -/
-def decWrapper (π : OneofOrder) (j : Json) : Res RawPayload := do
-  let fs ← (asObject j).toRes
-  let (o, fs) := takeField fs Gen.orbiterPrefix Gen.orbiterPrefix
-  let p ← match o with
-    | some .null => (.err "unpack:nil-payload" : Res RawPayload)
-    | some v => decPayload π v
-    | none => .err "unpack:nil-payload"
-  (noUnknown fs).toRes
-  -- UnpackInterfaces
-  Res.allM (fun (a : Option Action) => match a with
-    | some { attrs := some at_, .. } => if !at_.isAction then (.err "unpack:not-action-attributes" : Res Unit) else pure ()
-    | _ => pure ()) p.preActions
-  match p.forwarding with
-  | some { attrs := some at_, .. } => if !at_.isForwarding then (.err "unpack:not-forwarding-attributes" : Res Unit) else pure ()
-  | _ => pure ()
-  pure p
+/-- The value under the root key: a nil payload pointer is refused when the interfaces are unpacked. -/
+def decOrbiterValue (π : OneofOrder) (o : Option Json) : Res RawPayload :=
+  match o with
+  | some .null => .err "unpack:nil-payload"
+  | some v => decPayload π v
+  | none => .err "unpack:nil-payload"
+
+def checkActionFamily (a : Option Action) : Res Unit :=
+  match a with
+  | some { attrs := some at_, .. } => if !at_.isAction then .err "unpack:not-action-attributes" else .ok ()
+  | _ => .ok ()
+
+def checkForwardingFamily (f : Option Forwarding) : Res Unit :=
+  match f with
+  | some { attrs := some at_, .. } => if !at_.isForwarding then .err "unpack:not-forwarding-attributes" else .ok ()
+  | _ => .ok ()
+
+/-- `UnpackInterfaces`: the attribute family must match the field's interface. -/
+def unpackInterfaces (p : RawPayload) : Res RawPayload :=
+  Res.allM checkActionFamily p.preActions >>= fun _ => checkForwardingFamily p.forwarding >>= fun _ => pure p
+
+/-- `PayloadWrapper` + `UnpackInterfaces`. -/
+def decWrapper (π : OneofOrder) (j : Json) : Res RawPayload :=
+  (asObject j).toRes >>= fun fs =>
+  decOrbiterValue π (takeField fs Gen.orbiterPrefix Gen.orbiterPrefix).1 >>= fun p =>
+  (noUnknown (takeField fs Gen.orbiterPrefix Gen.orbiterPrefix).2).toRes >>= fun _ =>
+  unpackInterfaces p
 
 /-- ICS-20 packet data (`transfertypes.ModuleCdc.UnmarshalJSON`): first JSON value of the stream,
 five string fields, unknown fields rejected. -/
